@@ -232,7 +232,7 @@ def run(rep, tier, seed):
         if tier == 'quick':
             kmax = 1 if n > 6 else 2
         else:
-            kmax = 3 if n <= 6 else 2 if n <= 12 else 1
+            kmax = 3 if n <= 4 else 2 if n <= 9 else 1
         helds = (NONE, U.key(2), U.WALL, U.box(U.key(1)), U.beacon(3)) if n <= 2 else (NONE,)
         plan.append({'shape': list(sh), 'max_opaque_cells': kmax})
         cnt = sum(1 for _ in O.opaque_subsets(sh, kmax)) * n * 4
